@@ -49,13 +49,20 @@ Adv == pc' = pc + 1
 
 Invalid == /\ status' = "invalid" /\ UNCHANGED <<qvars, ctl, prog, flav, acts, pc, vs, recent, trys, lastq, hist, bad>>
 
-\* Flattening: ctrl of a Controlled, a + b on a Sum, a @ b on a Prod build ONE wrapper over the operands of the nested
-\* wrapper, which then owns them.  Whether a constructor flattens is not part of the property: a wrapper takes its direct
-\* operands out of the active queue and MAY also take the operands reached through nested wrappers of its own kind.
-RECURSIVE Chain(_, _)
-Chain(k, X) == X \cup UNION {IF objs[x].k \in {k, "eager"} THEN Chain(k, SeqSet(objs[x].a)) ELSE {} : x \in X}
+\* Ownership beyond the direct operands is not part of the property:
+\*  - flattening constructors (ctrl of a Controlled, a + b on a Sum, a @ b on a Prod) build ONE wrapper over the operands
+\*    of the nested wrapper, which then owns them;
+\*  - the result of an eager wrapper is opaque: it may be (or be built from) any operator below its operand.
+\* A constructor takes its direct operands out of the active queue and MAY also take any of the operators it can reach
+\* in that way; every such outcome is a behaviour of the model.
+RECURSIVE Deep(_), Reach(_, _)
+Deep(x) == LET ops == SeqSet(objs[x].a) IN ops \cup UNION {Deep(y) : y \in ops}
+Reach(k, X) == X \cup UNION {IF objs[x].k = "eager" THEN Deep(x)
+                             ELSE IF k \in {"ctrl", "sum", "prod"} /\ objs[x].k = k THEN Reach(k, SeqSet(objs[x].a))
+                             ELSE {} : x \in X}
 InTop(X) == IF stack = <<>> THEN {} ELSE X \cap SeqSet(queues[Last(stack)])
-Takes(k, direct) == IF k \in {"ctrl", "sum", "prod"} THEN {direct, direct \cup InTop(Chain(k, direct))} ELSE {direct}
+Takes(k, direct) == {direct \cup extra : extra \in SUBSET (InTop(Reach(k, direct)) \ direct)}
+TakesE(x) == {{x} \cup extra : extra \in SUBSET (InTop(Deep(x)) \ {x})}
 
 DoG == /\ Cur.a = "g" /\ Create(Term("g", Cur.p, Cur.iv, <<>>), {})
        /\ vs' = Append(vs, NewId) /\ Vis(NewId, 0) /\ Adv
@@ -70,7 +77,7 @@ DoU == /\ Cur.a = "u"
        /\ UNCHANGED <<ctl, prog, flav, acts, recent, trys, lastq, status, bad>>
 \* eager wrappers: the operand leaves the active queue, ONE new operator (whatever it simplifies to) is recorded
 DoE == /\ Cur.a = "e"
-       /\ LET x == Last(vs) IN Create(Term("eager", Cur.p, Cur.iv, <<x>>), {x})
+       /\ LET x == Last(vs) IN \E ops \in TakesE(x) : Create(Term("eager", Cur.p, Cur.iv, <<x>>), ops)
        /\ vs' = Append(Pop(vs), NewId) /\ Vis(NewId, 0) /\ Adv
        /\ UNCHANGED <<ctl, prog, flav, acts, recent, trys, lastq, status, bad>>
 DoP == /\ Cur.a = "p"
@@ -81,7 +88,7 @@ DoP == /\ Cur.a = "p"
 DoDo == /\ Cur.a = "do" /\ recent' = Push(Last(vs)) /\ vs' = Pop(vs) /\ Quiet /\ Adv
         /\ UNCHANGED <<qvars, ctl, prog, flav, acts, trys, lastq, status, bad>>
 DoMeas == /\ Cur.a = "meas"
-          /\ IF Cur.r = 1 THEN /\ Create(Term(Pick(MKinds, Cur.p), Cur.p, Cur.iv, <<Last(vs)>>), {Last(vs)})
+          /\ IF Cur.r = 1 THEN /\ \E ops \in Takes("meas", {Last(vs)}) : Create(Term(Pick(MKinds, Cur.p), Cur.p, Cur.iv, <<Last(vs)>>), ops)
                                /\ vs' = Pop(vs)
              ELSE Create(Term("probs", Cur.p, Cur.iv, <<>>), {}) /\ vs' = vs
           /\ Vis(NewId, 0) /\ Adv
@@ -90,9 +97,9 @@ DoMeas == /\ Cur.a = "meas"
 DoApply == /\ Cur.a = "apply"
            /\ IF Cur.r > Len(recent) THEN Invalid
               ELSE LET src == recent[Cur.r]
-                       shared == SeqSet(objs[src].a) \cap SeqSet(queues[Last(stack)]) IN
+                       shared == InTop(Reach("-", SeqSet(objs[src].a)) \cup (IF objs[src].k = "eager" THEN Deep(src) ELSE {})) IN
                    /\ stack # <<>>
-                   /\ \E ops \in {{}, shared} : Create(objs[src], ops)
+                   /\ \E ops \in SUBSET shared : Create(objs[src], ops)
                    /\ recent' = Push(NewId) /\ Vis(NewId, 0) /\ Adv
                    /\ UNCHANGED <<ctl, prog, flav, acts, vs, trys, lastq, status, bad>>
 DoApplyErr == /\ Cur.a = "applyerr"
@@ -142,7 +149,7 @@ DoLift == /\ Cur.a = "lift"
           /\ LET inner == SelectSeq(queues[lastq], IsOp)
                  src == IF Cur.r = 3 THEN Rev(inner) ELSE inner
                  k == CASE Cur.r = 1 -> "cond+" [] Cur.r = 2 -> "cond-" [] Cur.r = 3 -> "adj" [] OTHER -> "ctrl" IN
-             \E ops \in (IF Cur.r = 4 THEN {{}, InTop(Chain("ctrl", SeqSet(src)))} ELSE {{}}) :
+             \E ops \in (IF Cur.r = 4 THEN SUBSET InTop(Reach("ctrl", SeqSet(src))) ELSE {{}}) :
                 CreateMany([j \in 1..Len(src) |-> Term(k, Cur.p, Cur.iv, <<src[j]>>)], ops)
           /\ Quiet /\ Adv
           /\ UNCHANGED <<ctl, prog, flav, acts, vs, recent, trys, lastq, status, bad>>
